@@ -64,13 +64,41 @@ def safe_build(build, sizes, chk, what, only=None):
         return None
 
 
-def prove(chk, build, ground_sizes=(), replay=None, timeout=None, known_ok=None, canaries=8, min_obligations=1):
-    timeout = timeout or (10 if chk.tier == "quick" else 60)
-    t0 = time.time()
-    obs = safe_build(build, None, chk, "symbolic build")
-    if obs is None:
-        return []
-    # structural obligations (no solver needed)
+class LightOblig:
+    """picklable summary of an obligation solved in a worker process"""
+
+    def __init__(self, o):
+        self.id, self.kind, self.props, self.status, self.time, self.backend = o.id, o.kind, o.props, o.status, o.time, o.backend
+        self.detail = str(o.detail)[:500] if o.detail is not None else None
+        self.meta = {k: v for k, v in o.meta.items() if isinstance(v, (str, int, float, bool, tuple, list)) or v is None}
+        self.hyps, self.goal = [], None
+
+
+_PART_CTX = {}
+
+
+def _solve_part(part):
+    build, timeout = _PART_CTX["build"], _PART_CTX["timeout"]
+    try:
+        obs = build(None, None, part)
+    except (Unsupported, CalleeRaises, KeyError, TypeError, AssertionError, AttributeError, IndexError, ValueError, RecursionError) as e:
+        import os
+        if os.environ.get("VERIF_DEBUG"):
+            traceback.print_exc()
+        return ("error", part, f"{type(e).__name__}: {e}")
+    solver_obs = classify(obs)
+    discharge(solver_obs, timeout_s=timeout, jobs=_PART_CTX["jobs"], modes=("direct",))
+    discharge([o for o in solver_obs if o.status != "unsat"], timeout_s=max(3, timeout / 2), jobs=_PART_CTX["jobs"], modes=("lin",))
+    groups = {}
+    for o in solver_obs:
+        if o.status == "unsat" and o.hyps and o.kind not in ("lemma",):
+            groups.setdefault(o.id.split("[")[-1] + o.id.split("/")[1], o)
+    cans = [Oblig("canary:" + o.id, o.hyps, BoolVal(False), "canary") for o in list(groups.values())[:2]]
+    discharge(cans, timeout_s=5, modes=("direct",), jobs=_PART_CTX["jobs"])
+    return ("ok", part, [LightOblig(o) for o in obs], [(c.id, c.status) for c in cans])
+
+
+def classify(obs):
     solver_obs = []
     for o in obs:
         lit = literal(o.goal) if not o.hyps else (True if literal(o.goal) is True else None)
@@ -80,6 +108,34 @@ def prove(chk, build, ground_sizes=(), replay=None, timeout=None, known_ok=None,
             o.status, o.backend = "sat", "structural"
         else:
             solver_obs.append(o)
+    return solver_obs
+
+
+def prove(chk, build, ground_sizes=(), replay=None, timeout=None, known_ok=None, canaries=8, min_obligations=1, parts=None):
+    timeout = timeout or (8 if chk.tier == "quick" else 60)
+    t0 = time.time()
+    if parts:
+        from .framework import parallel_map, _pool_jobs
+        _PART_CTX.update(build=build, timeout=timeout, jobs=max(1, _pool_jobs() // min(len(parts), _pool_jobs())))
+        obs = []
+        for res in parallel_map(_solve_part, parts):
+            if res[0] == "error":
+                chk.notes.append(f"symbolic build of part {res[1]}: engine could not execute the current source: {res[2]}")
+                chk.undecided.append(f"{chk.pid}/engine[{res[1]}]:{res[2][:120]}")
+                continue
+            obs += res[2]
+            for cid, st in res[3]:
+                chk.vacuity.append({"canary": cid, "status": st})
+                if st == "unsat":
+                    raise RuntimeError(f"vacuous hypotheses: {cid}")
+        chk.obligs += obs
+        if len(obs) < min_obligations:
+            raise RuntimeError("zero obligations generated")
+        return refute(chk, build, obs, ground_sizes, replay, t0, second_pass=timeout)
+    obs = safe_build(build, None, chk, "symbolic build")
+    if obs is None:
+        return []
+    solver_obs = classify(obs)
     discharge(solver_obs, timeout_s=timeout)
     # vacuity canaries: `False` under the same hypotheses must not be provable
     groups = {}
@@ -95,9 +151,21 @@ def prove(chk, build, ground_sizes=(), replay=None, timeout=None, known_ok=None,
     chk.obligs += obs
     if len(obs) < min_obligations:
         raise RuntimeError("zero obligations generated")
-    # refutation of what is left
+    return refute(chk, build, obs, ground_sizes, replay, t0)
+
+
+def gid(o):
+    """identifier used to match an obligation of the symbolic build with its ground-mode twin"""
+    import re
+    return o.meta.get("gid") or re.sub(r",easy[=>]0\]", "]", o.id)
+
+
+def refute(chk, build, obs, ground_sizes, replay, t0, second_pass=None):
+    """ground-mode refutation + replay on the real code of every obligation that was not discharged; obligations that are
+    neither discharged nor refuted get a second pass with the remaining strategies (cvc5, index instantiation)"""
     failed = [o for o in obs if o.status != "unsat"]
     gcache = {}
+    rest = []
     for o in failed:
         key = o.meta.get("key", o.id)
         done = False
@@ -105,8 +173,8 @@ def prove(chk, build, ground_sizes=(), replay=None, timeout=None, known_ok=None,
             if time.time() - t0 > (600 if chk.tier == "quick" else 3000):
                 break
             if sz not in gcache:
-                gcache[sz] = safe_build(build, sz, chk, f"ground build {sz}", only={f.id for f in failed}) or []
-            go = next((g for g in gcache[sz] if g.id == o.id), None)
+                gcache[sz] = safe_build(build, sz, chk, f"ground build {sz}", only={gid(f) for f in failed}) or []
+            go = next((g for g in gcache[sz] if gid(g) == gid(o)), None)
             if go is None:
                 continue
             if literal(go.goal) is True:
@@ -156,5 +224,21 @@ def prove(chk, build, ground_sizes=(), replay=None, timeout=None, known_ok=None,
             chk.violation(o.id, key, f"obligation refuted ({o.backend}): {o.detail if o.detail else o.meta}", None, kind="refuted",
                           obligation=o.id, solver=str(o.detail), reproduced=False)
         else:
+            rest.append(o)
+    if rest and second_pass and (len(rest) <= 32 or not chk.findings):
+        # second pass: rebuild only what is left and try the remaining strategies
+        again = safe_build(build, None, chk, "second-pass build", only={o.id for o in rest}) or []
+        again = [a for a in again if a.id in {o.id for o in rest}]
+        sol = classify(again)
+        discharge(sol, timeout_s=second_pass * 2, modes=("cvc5", "inst", "direct"))
+        byid = {a.id: a for a in again}
+        for o in rest:
+            a = byid.get(o.id)
+            if a is not None and a.status == "unsat":
+                o.status, o.backend, o.time = "unsat", a.backend, o.time + a.time
+            else:
+                chk.undecided.append(o.id)
+    else:
+        for o in rest:
             chk.undecided.append(o.id)
     return obs
